@@ -146,26 +146,58 @@ func allStacks() string {
 
 const m3Frame = "github.com/uber-go/tally/v4/m3."
 
-// m3Stacks returns the goroutines that are inside package m3.
+// frames of the packages below m3 (thriftudp, customtransports, thrift/...)
+const m3SubFrame = "github.com/uber-go/tally/v4/m3/"
+
+// m3Stacks returns the goroutines that are inside package m3 or one of its
+// sub-packages (the transports).
 func m3Stacks() string {
 	var out []string
 	for _, blk := range strings.Split(allStacks(), "\n\n") {
-		if strings.Contains(blk, m3Frame) {
+		if strings.Contains(blk, m3Frame) || strings.Contains(blk, m3SubFrame) {
 			out = append(out, blk)
 		}
 	}
 	return strings.Join(out, "\n\n")
 }
 
+// c14Dests builds the HostPorts of a reporter with extra destinations around
+// the primary one. Kinds: 1 unreachable, before the primary; 2 unreachable,
+// after it; 3 a second live sink after it; 4 a second live sink before it.
+// The live extra sinks are returned (to be read and closed by the caller).
+func c14Dests(primary string, binary bool, kinds []int) (hostports []string, live []*m3Sink) {
+	var before, after []string
+	for _, k := range kinds {
+		s := newM3Sink(binary)
+		switch k {
+		case 1, 2:
+			s.Close() // nobody listens there any more: connection refused
+		default:
+			live = append(live, s)
+		}
+		if k == 1 || k == 4 {
+			before = append(before, s.Addr())
+		} else {
+			after = append(after, s.Addr())
+		}
+	}
+	hostports = append(append(before, primary), after...)
+	return
+}
+
 // m3LeakOf is m3Leak restricted to the goroutines whose stack mentions the
 // given reporter (its pointer is the receiver of process(), timeLoop() and of
-// every call in flight).
+// every call in flight), plus goroutines started inside the transport packages.
 func m3LeakOf(ptr string) string {
 	var s string
-	for k := 0; k < 400; k++ {
+	for k, t0 := 0, time.Now(); k < 400 && (k == 0 || time.Since(t0) < 400*time.Millisecond); k++ {
 		var out []string
 		for _, blk := range strings.Split(allStacks(), "\n\n") {
 			if strings.Contains(blk, m3Frame) && strings.Contains(blk, ptr) {
+				out = append(out, blk)
+			} else if strings.Contains(blk, m3SubFrame) && !strings.Contains(blk, "tally/v4/m3.(*reporter)") {
+				// a goroutine started inside the transports that belongs to no
+				// reporter's own goroutines or calls: nothing may outlive Close there
 				out = append(out, blk)
 			}
 		}
@@ -181,7 +213,7 @@ func m3LeakOf(ptr string) string {
 // there must be none); exiting goroutines get 200 ms to disappear.
 func m3Leak() string {
 	var s string
-	for k := 0; k < 400; k++ {
+	for k, t0 := 0, time.Now(); k < 400 && (k == 0 || time.Since(t0) < 400*time.Millisecond); k++ {
 		if s = m3Stacks(); s == "" {
 			return ""
 		}
@@ -208,6 +240,9 @@ type c14Storm struct {
 	// Handle: all producers report unique values through ONE allocated handle of
 	// this kind ("counter", "gauge", "timer"; "" = each goroutine its own mix)
 	Handle string `json:"shared_handle,omitempty"`
+	// Dests: extra destinations around the sink (see c14Dests); more than one
+	// HostPort makes the reporter use the multi-destination transport
+	Dests []int `json:"dests,omitempty"`
 }
 
 type c14StormOut struct {
@@ -232,7 +267,11 @@ func c14StormRun(sc *c14Storm) (out c14StormOut) {
 		proto = m3.Binary
 	}
 	m3.VerifSetYield((func(int))(nil))
-	r, err := m3.NewReporter(m3.Options{HostPorts: []string{sink.Addr()}, Service: "svc", Env: "test",
+	hostports, live := c14Dests(sink.Addr(), sc.Binary, sc.Dests)
+	for _, s := range live {
+		defer s.Close()
+	}
+	r, err := m3.NewReporter(m3.Options{HostPorts: hostports, Service: "svc", Env: "test",
 		MaxQueueSize: sc.Cap, Protocol: proto})
 	if err != nil {
 		fatal(err)
@@ -422,6 +461,9 @@ func c14StormOne(ctx *Ctx, sc *c14Storm) {
 	if sc.Handle != "" {
 		cls = "storm-shared-" + sc.Handle
 	}
+	if len(sc.Dests) > 0 {
+		cls += fmt.Sprintf(" dests=%d", 1+len(sc.Dests))
+	}
 	ctx.Case(sc, "", cls, hashOf(sc))
 	switch {
 	case len(out.Panics) > 0:
@@ -431,7 +473,7 @@ func c14StormOne(ctx *Ctx, sc *c14Storm) {
 	case out.NilCloses != 1:
 		ctx.Fail("second_close_returns_error", fmt.Sprintf("storm: %d Close calls returned nil, %d the error", out.NilCloses, out.ErrCloses), sc, out)
 	case out.Leak != "":
-		ctx.Fail("no_goroutine_left_after_close", "storm: after Close returned a goroutine of package m3 is still running:\n"+out.Leak, sc, out)
+		ctx.Fail("no_goroutine_left_after_close", "storm: after Close returned a goroutine of package m3 / its transports is still running:\n"+c14Trim(out.Leak), sc, out)
 	case out.Foreign != "" && sc.Handle != "":
 		ctx.Fail("delivered_values_were_reported", "storm on one "+sc.Handle+" handle used by all goroutines: "+out.Foreign, sc, out)
 	case out.Foreign != "":
@@ -622,12 +664,38 @@ func c14CloseStormOne(ctx *Ctx, cs *c14CloseStorm) {
 	}
 }
 
+// c14Failed: has a failure other than a known finding been recorded?
+func c14Failed(ctx *Ctx) bool {
+	for _, f := range ctx.Res.Failures {
+		if f.Known == "" {
+			return true
+		}
+	}
+	return false
+}
+
 func c14Storms(ctx *Ctx) {
+	// a failure already found is the verdict; goroutines leaked by a broken tree
+	// would only slow the remaining storms down
+	failed := func() bool { return c14Failed(ctx) }
+	if failed() {
+		return
+	}
+	c14MultiDests(ctx)
+	if failed() {
+		return
+	}
 	c14AllocStorms(ctx)
+	if failed() {
+		return
+	}
 	c14FlushStorms(ctx)
 	// Close calls that really overlap (no yield point separates the steps of the
 	// test-and-set on `done`, so schedule replay cannot interleave there)
 	for k, nk := 0, ctx.N(4, 16); k < nk; k++ {
+		if failed() {
+			return
+		}
 		cs := c14CloseStorm{Storm: true, CloseStorm: true, Seed: ctx.R.U64() % 1000000, Trials: ctx.N(300, 500), Closers: []int{16, 8, 32, 16}[k%4]}
 		c14CloseStormOne(ctx, &cs)
 	}
@@ -637,6 +705,9 @@ func c14Storms(ctx *Ctx) {
 	// (many more goroutines than a scope would use, small and large queues: the
 	// window is a few instructions wide and has no yield point)
 	for k, nk := 0, ctx.N(12, 36); k < nk; k++ {
+		if failed() {
+			return
+		}
 		r := ctx.R
 		p := []int{16, 32, 8, 16}[(k/3)%4]
 		sc := c14Storm{Storm: true, Seed: r.U64() % 1000000, Cap: []int{64, 4096, 16, 4096}[(k/3)%4], Binary: r.Chance(30), Producers: p,
@@ -645,18 +716,30 @@ func c14Storms(ctx *Ctx) {
 		c14StormOne(ctx, &sc)
 	}
 	for k, nk := 0, ctx.N(2, 10); k < nk; k++ {
+		if failed() {
+			return
+		}
 		rc := c14Race{Storm: true, CloseRace: true, Seed: ctx.R.U64() % 1000000, Trials: ctx.N(150, 600)}
 		c14CloseRaceOne(ctx, &rc)
 	}
 	n := ctx.N(6, 60)
 	for k := 0; k < n; k++ {
+		if failed() {
+			return
+		}
 		r := ctx.R
 		sc := c14Storm{Storm: true, Seed: r.U64() % 1000000, Cap: []int{1, 2, 8, 64, 4096}[r.Intn(5)], Binary: r.Chance(30),
 			Producers: r.Range(2, 12), Flushers: r.Range(0, 3), Closers: r.Range(0, 2), Calls: r.Range(50, 400), SinkMode: k % 3}
 		sc.CloseAt = r.Intn(sc.Producers*sc.Calls + 1)
+		if k%2 == 1 {
+			sc.Dests = [][]int{{1}, {2, 3}, {1, 2}, {4, 2}}[(k/2)%4]
+		}
 		c14StormOne(ctx, &sc)
 	}
 	for k, nk := 0, ctx.N(2, 12); k < nk; k++ {
+		if failed() {
+			return
+		}
 		r := ctx.R
 		sc := c14Storm{Storm: true, Seed: r.U64() % 1000000, Cap: 4096, Producers: r.Range(3, 8), Calls: 400, Shared: true}
 		sc.CloseAt = sc.Producers * sc.Calls
